@@ -2237,9 +2237,61 @@ class OtlUnit(Unit):
         for mask in range(256):
             for variant in range(3):
                 yield ["vr", mask, variant]
+        # Device tables on their own: every delta format x every count 1..17 (whole and partial last
+        # words) x delta patterns, among them an all-zero partial last word
+        for fmt in (1, 2, 3):
+            for n in range(1, 18):
+                for pat in ("zero", "lead", "last-word-zero", "alternating", "limits"):
+                    yield ["dev", fmt, n, pat]
 
     def check(self, case, rec):
         getattr(self, "check_" + case[0])(case, rec)
+
+    # ---- Device --------------------------------------------------------------------------
+    def check_dev(self, case, rec):
+        from fontTools.ttLib.tables.otBase import OTTableWriter, OTTableReader
+
+        _k, fmt, n, pat = case
+        bits = {1: 2, 2: 4, 3: 8}[fmt]
+        per = 16 // bits
+        lo, hi = -(1 << (bits - 1)), (1 << (bits - 1)) - 1
+        if pat == "zero":
+            vals = [0] * n
+        elif pat == "lead":
+            vals = [hi] + [0] * (n - 1)
+        elif pat == "last-word-zero":
+            full = (n // per) * per
+            vals = [lo if i % 2 else hi for i in range(full)] + [0] * (n - full)
+        elif pat == "alternating":
+            vals = [lo if i % 2 else hi for i in range(n)]
+        else:
+            vals = [(lo, -1, 0, 1, hi)[i % 5] for i in range(n)]
+        d = ot.Device()
+        d.StartSize, d.EndSize, d.DeltaFormat, d.DeltaValue = 12, 12 + n - 1, fmt, list(vals)
+        font = bigfont()
+        w = OTTableWriter()
+        d.compile(w, font)
+        data = w.getAllData()
+        rec.nontrivial()
+        words = -(-n // per)
+        if n % per and not any(vals[(n // per) * per:]):
+            rec.witness("Device with an all-zero partial last word")
+        if len(data) != 6 + 2 * words:
+            rec.violation("device:length:format%d:%s" % (fmt, pat), "Device format %d with %d deltas %s compiles to %d bytes, the specification asks for %d" % (fmt, n, vals, len(data), 6 + 2 * words))
+            return
+        # independent reading of the packed deltas
+        st, en, f_ = struct.unpack(">HHH", data[:6])
+        got = []
+        for i in range(n):
+            word = struct.unpack(">H", data[6 + 2 * (i // per): 8 + 2 * (i // per)])[0]
+            v = (word >> (16 - bits * (i % per + 1))) & ((1 << bits) - 1)
+            got.append(v - (1 << bits) if v >= (1 << (bits - 1)) else v)
+        if (st, en, f_) != (12, 12 + n - 1, fmt) or got != vals:
+            rec.violation("device:reader:format%d:%s" % (fmt, pat), "independent reader sees (%d, %d, %d) %s, expected %s" % (st, en, f_, got, vals))
+        d2 = ot.Device()
+        d2.decompile(OTTableReader(data), font)
+        if (d2.StartSize, d2.EndSize, d2.DeltaFormat, list(d2.DeltaValue)) != (12, 12 + n - 1, fmt, vals):
+            rec.violation("device:decompile:format%d:%s" % (fmt, pat), "decompiled %r, expected %r" % (list(d2.DeltaValue), vals))
 
     # ---- Coverage ------------------------------------------------------------------------
     def check_cov(self, case, rec):
